@@ -294,7 +294,14 @@ def prepare(job, workdir, rng_cls):
   from . import c03_rtlir as R
   d = job.d
   try:
-    mod = load_module(workdir, d['src'])
+    # d['aux']: further generated modules the design imports (class hierarchies that span modules); the source refers to them
+    # through the placeholders {AUX0}, {AUX1}, ...
+    src, job.auxnames = d['src'], []
+    for k, a in enumerate(d.get('aux', ())):
+      am = load_module(workdir, a, 'aux')
+      job.auxnames.append(am.__name__)
+      src = src.replace('{AUX%d}' % k, am.__name__)
+    mod = load_module(workdir, src)
     job.modname = mod.__name__
     Top = getattr(mod, d.get('top', 'Top'))
   except Exception as e:
@@ -319,6 +326,7 @@ def prepare(job, workdir, rng_cls):
   if 'cycles' in d: job.cycles = d['cycles']
   else: job.cycles = gen_cycles(rng_cls(job.cyc_seed), job.ports, job.ncycles)
   job.case = {'label': d['label'], 'backend': job.be, 'src': d['src'], 'cycles': job.cycles}
+  if d.get('aux'): job.case['aux'] = d['aux']
   if d.get('history'): job.case['history'], job.case['pick'] = d['history'], d['pick']
   try:
     job.pytrace = simulate_pymtl(top, job.ports, job.cycles)
@@ -725,8 +733,8 @@ def run_batch(ck, be, designs, stats, ncycles, nstores, tie=True, keep=False):
   if not keep:
     # release the elaborated components and the generated modules (thousands of designs per run)
     for j in jobs:
-      mn = getattr(j, 'modname', None)
-      if mn:
+      for mn in [getattr(j, 'modname', None)] + list(getattr(j, 'auxnames', ())):
+        if not mn: continue
         sys.modules.pop(mn, None)
         try: os.remove(os.path.join(ck.workdir, mn + '.py'))
         except OSError: pass
